@@ -31,6 +31,8 @@ pub enum Ty {
   RawCont(Box<Ty>),
   /// a bare address (BoxBytes' NonNull<u8> and what is cast from it); the pointee type is kept for from_raw
   Addr(Box<Ty>),
+  /// a Vec<T> together with its contents (count, bytes): used where a function fills a fresh vector
+  BVec(Box<Ty>),
   BoxBytes,
   Layout,
   Unknown,
@@ -189,6 +191,7 @@ pub fn coq_type(t: &Ty) -> Result<String, String> {
     Ty::CErr => "cerr".into(),
     Ty::Box_(_) | Ty::Vec_(_) | Ty::Rc_(_) | Ty::Arc_(_) | Ty::ManuallyDrop(_) | Ty::RawCont(_) => "cont".into(),
     Ty::Addr(_) => "N".into(),
+    Ty::BVec(_) => "bvec".into(),
     Ty::BoxBytes => "boxbytes".into(),
     Ty::Layout => "layout".into(),
     Ty::Unknown => return Err("unknown type".into()),
@@ -241,6 +244,7 @@ pub fn subst(t: &Ty, s: &std::collections::HashMap<String, Ty>) -> Ty {
     Ty::ManuallyDrop(x) => Ty::ManuallyDrop(b(x)),
     Ty::RawCont(x) => Ty::RawCont(b(x)),
     Ty::Addr(x) => Ty::Addr(b(x)),
+    Ty::BVec(x) => Ty::BVec(b(x)),
     _ => t.clone(),
   }
 }
@@ -269,5 +273,15 @@ pub fn unify(pat: &Ty, act: &Ty, vars: &[String], s: &mut std::collections::Hash
       }
     }
     _ => {}
+  }
+}
+
+/// Vec<T> as a vector with contents, everywhere in a type.
+pub fn vec_with_contents(t: &Ty) -> Ty {
+  match t {
+    Ty::Vec_(x) => Ty::BVec(x.clone()),
+    Ty::Result(a, b) => Ty::Result(Box::new(vec_with_contents(a)), Box::new(vec_with_contents(b))),
+    Ty::Tuple(v) => Ty::Tuple(v.iter().map(vec_with_contents).collect()),
+    _ => t.clone(),
   }
 }
